@@ -150,7 +150,10 @@ func run(c *vf.Ctx) {
 		"each point: Seal == dst||RFC-model ciphertext||tag, Open(that) == dst||plaintext, inputs unmodified; non-trivial = distinct (path,variant,ptLen,adLen) with ptLen>=1; "+
 		"plus the STEERED-ACCUMULATOR family: for {New,NewX} x ciphertext lengths %v x AD lengths %v, messages crafted with math/big (one free 16-byte ciphertext block solved, nonce/filler varied) so that the AEAD's own Poly1305 accumulator, "+
 		"right before the lengths block and right before the final reduction, has low limb in {0,1,2^64-adLen-1,2^64-adLen,2^64-1,2^64-5,2^64-6} x middle limb {0,2^64-1} x top limb {0..3}, or equals 0..4, p-5..p+4, 2^130..2^130+4; sealed and opened (nil and in-place dst) on both paths; "+
-		"oracle = verif/ref/aeadref (plain block function + math/big Poly1305, RFC KATs)", len(pls), map[bool]int{false: 1024, true: 8192}[c.Thorough], len(als), len(epls), len(eals), aeadsteer.Lens, aeadsteer.ADLens))
+		"plus the LONG family: {New,NewX} x plaintext lengths 2^k+{-1,0,1,15..17,63..65,127..129,191..193,255..257,319..321,383..385,447..449,511..513} for k=16..22 (4 MiB) x AD lengths %v x dst{prefix+spare, in place} (quick: above 2^18 only the offsets up to 65 and the 13-byte AD), one seeded value class, both paths, Seal and Open against the model; "+
+		"plus the HISTORY family: a fresh AEAD is taken through every history of 0..2 calls from {failed Open into spare capacity, failed Open in place, Seal of another message under another nonce, Open of that other message, Open of a 7-byte input} and must then Seal/Open like the model, for %d plaintext lengths (b-1,b,b+1 for b in 0,16,32,64,128,...,512,1024,4096; 289, 700) x AD {0,13,17} x dst{prefix+spare, in place} x {New,NewX} x both paths; "+
+		"in every family the key slice given to New/NewX is a private copy that is overwritten right after the constructor returned; "+
+		"oracle = verif/ref/aeadref (plain block function + math/big Poly1305, RFC KATs)", len(pls), map[bool]int{false: 1024, true: 8192}[c.Thorough], len(als), len(epls), len(eals), aeadsteer.Lens, aeadsteer.ADLens, longADs, len(histLens())))
 	c.Assume("math/big arithmetic is correct; values outside the alphabet are not enumerated; Poly1305 carry corner cases inside the AEAD code are reached through crafted messages for the listed accumulator targets only (limb values of intermediate blocks are not steered)")
 	c.Assume("the amd64 assembly is exercised on this CPU's feature set only")
 
@@ -215,6 +218,11 @@ func run(c *vf.Ctx) {
 	c.Set("steered_cases", len(steered))
 	c.Set("steered_targets_attempted", attempted)
 
+	// long family: reference model evaluated once, shared by both paths
+	t0 = time.Now()
+	longV := longPrepare(c, variants)
+	c.Set("long_model_seconds", time.Since(t0).Seconds())
+
 	initial := chacha20poly1305.VerifC01UseAVX2()
 	c.Set("cpu_selected_path", map[bool]string{true: "avx2-asm", false: "generic"}[initial])
 	c.Set("has_asm", chacha20poly1305.VerifC01HasAsm)
@@ -240,7 +248,7 @@ func run(c *vf.Ctx) {
 			plainAll := ptC[(u.ci+1)%nClasses] // shifted: key class i meets plaintext class i+1, AD class i+2
 			ad := adC[(u.ci+2)%nClasses][:u.an]
 			p := pre[u.v*nClasses+u.ci]
-			aead, err := va.mk(key)
+			aead, err := newAEAD(va.mk, key) // private key copy, overwritten after the constructor returned
 			if err != nil {
 				c.Violation(va.name+" rejects a 32-byte key", err.Error())
 				return
@@ -374,6 +382,12 @@ func run(c *vf.Ctx) {
 			}
 		})
 		runSteered(c, ph.name, steered)
+		t1 := time.Now()
+		runLong(c, ph.name, variants, longV)
+		c.Set("long_seconds_"+ph.name, time.Since(t1).Seconds())
+		t1 = time.Now()
+		runHistories(c, ph.name, variants, keys, nonces, ptC, adC, 4)
+		c.Set("history_seconds_"+ph.name, time.Since(t1).Seconds())
 	}
 }
 
@@ -385,7 +399,7 @@ func runSteered(c *vf.Ctx, path string, cases []*aeadsteer.Case) {
 		if len(sc.Nonce) == chacha20poly1305.NonceSizeX {
 			vname, mk = "NewX", chacha20poly1305.NewX
 		}
-		aead, err := mk(sc.Key)
+		aead, err := newAEAD(mk, sc.Key)
 		if err != nil {
 			c.Violation(vname+" rejects a 32-byte key", err.Error())
 			return
